@@ -470,19 +470,21 @@ def m_np_isclose(ctx, args, kw):
     ta, tb = term(a, "real"), term(b, "real")
     d = z3.If(ta - tb >= 0, ta - tb, tb - ta)
     ab = z3.If(tb >= 0, tb, -tb)
-    return mk(d <= ops.realval(atol) + ops.realval(rtol) * ab, "bool")
+    return mk(d <= ops.realval(atol) + ops.realval(rtol) * ab, "bool", np=not kw.pop("_py_bool", False))
 
 
-model(np.allclose)(m_np_isclose)
+@model(np.allclose)
+def m_np_allclose(ctx, args, kw):
+    return m_np_isclose(ctx, args, dict(kw, _py_bool=True))    # allclose returns a Python bool, isclose a numpy.bool_
 
 
 @model(np.all, np.any)
 def m_all(ctx, args, kw):
     x = args[0]
     if isinstance(x, Sym):
-        return mk(ops.truth_term(x), "bool")
+        return mk(ops.truth_term(x), "bool", np=True)
     if isinstance(x, bool):
-        return x
+        return np.bool_(x)
     return NotImplemented
 
 
@@ -521,6 +523,8 @@ def _isinstance(ctx, v, t):
                 ctx.raise_exc("TypeError", (str(e),))
         if isinstance(v, Sym):
             pyt = {"int": int, "real": float, "bool": bool, "str": str}[v.k]
+            if v.k == "bool" and v.np:
+                pyt = np.bool_
             return issubclass(pyt, py)
         if isinstance(v, Ref):
             c = ctx.cell(v)
@@ -855,10 +859,66 @@ def bi_print(ctx, args, kw):
     return None
 
 
+def _vfs_path(v):
+    return isinstance(v, str) and v.startswith("/vfs/")
+
+
+def _vfs(ctx, name):
+    return ctx.world.model_module("vfs").globals[name]
+
+
+@model(_b.open)
+def m_open(ctx, args, kw):
+    if args and _vfs_path(args[0]):
+        return ctx.call(_vfs(ctx, "File"), list(args), dict(kw))
+    return NotImplemented
+
+
+import os as _os
+
+
+@model(_os.path.isfile, _os.path.exists)
+def m_isfile(ctx, args, kw):
+    if args and _vfs_path(args[0]):
+        return ctx.call(_vfs(ctx, "isfile"), list(args), {})
+    return NotImplemented
+
+
+@model(_os.path.getsize)
+def m_getsize(ctx, args, kw):
+    if args and _vfs_path(args[0]):
+        return ctx.call(_vfs(ctx, "getsize"), list(args), {})
+    return NotImplemented
+
+
+@model(_os.remove, _os.unlink)
+def m_remove(ctx, args, kw):
+    if args and _vfs_path(args[0]):
+        return ctx.call(_vfs(ctx, "remove"), list(args), {})
+    return NotImplemented
+
+
 def bi_round(ctx, args, kw):
-    if any(isinstance(a, Sym) for a in args):
+    """round(x[, ndigits]) in real arithmetic: the multiple of 10**-ndigits nearest to x, ties to even"""
+    if not any(isinstance(a, Sym) for a in args):
+        return round(*args)
+    x = args[0]
+    nd = args[1] if len(args) > 1 else kw.get("ndigits")
+    if not isinstance(x, Sym) or x.k not in ("int", "real") or isinstance(nd, Sym) or kw and set(kw) != {"ndigits"}:
         raise U()("round() of symbolic value")
-    return round(*args)
+    if x.k == "int" and (nd is None or nd >= 0):
+        return x
+    from fractions import Fraction
+    scale = Fraction(10) ** (nd or 0)
+    sc = z3.RealVal(str(scale))
+    y = term(x, "real") * sc
+    n = ctx.fresh("int", "round")
+    d = y - z3.ToReal(n.t)
+    ctx.assume(z3.And(d <= z3.RealVal("1/2"), d >= z3.RealVal("-1/2"),
+                      z3.Implies(z3.Or(d == z3.RealVal("1/2"), d == z3.RealVal("-1/2")), n.t % 2 == 0)))
+    if nd is None:
+        return n
+    return mk(z3.ToReal(n.t) / sc, "real")
 
 
 def bi_id(ctx, args, kw):
